@@ -284,7 +284,7 @@ func SetupC20Conc() any {
 // describes one request only, and the happens-before monitor sees no unordered conflicting access.
 func HarnessC20Conc(st any) {
 	s := st.(*c20State)
-	sym.Threads(sym.Param("preempt"))
+	sym.ThreadsPool(sym.Param("preempt")) // pool Get/Put are scheduling points: the two requests may overlap
 	s.behave = func(c fox.Context) {
 		if c.Host() == "a.example" {
 			c.Writer().WriteHeader(http.StatusCreated)
